@@ -278,6 +278,15 @@ def dense_cases(ctx):
                          for k in range(count))
         for run in (20, 45):
             out.append((long_arc, 1.07 * 10 * (1 - math.cos(step * run / 2))))
+    # ... and list lengths taken from the integer literals of plot_utils' own source (a stride, a
+    # block size, a split threshold is written in the code that uses it)
+    for const in core.harvest_ints(_lib(), low=8, high=3000):
+        for count in sorted({const - 1, const, const + 1, const + 2, 2 * const + 1}):
+            step = 1.5 * math.pi / count
+            arc_c = tuple((10 * math.sin(step * k), 10 - 10 * math.cos(step * k)) for k in range(count))
+            out.append((arc_c, 1.07 * 10 * (1 - math.cos(step * min(20, count // 3 + 1) / 2))))
+            straight = tuple((float(k), 0.0) for k in range(count)) + ((float(count - 1), 1.0),)
+            out.append((straight, 0.25))
     arc = tuple((10 * math.sin(0.001 * k), 10 - 10 * math.cos(0.001 * k)) for k in range(601))
     out += [(arc, tol) for tol in (0.002, 0.01, 0.03)]
     spiral = tuple(((1 + 0.002 * k) * math.cos(0.01 * k), (1 + 0.002 * k) * math.sin(0.01 * k))
